@@ -11,11 +11,56 @@ FLAGARG = {"2": "-2", "3": "-3", "4": "-4", "a": "-a", "n": "-n", "j": "-j"}
 SEL = {"2": ("2", -1), "3": ("3", 0), "4": ("4", -1)}
 
 
+LONG = {"-a": "--all", "-n": "--no-colors", "-j": "--json", "-v": "--vector"}
+
+
+def typed(rnd, args):
+    """one way of typing a normalised argument list: long names, unambiguous abbreviations, clusters of short flags, values attached"""
+    style = rnd.random()
+    if style < 0.45:
+        return list(args)
+    out, k, cluster = [], 0, ""
+
+    def flush():
+        if cluster:
+            out.append("-" + cluster)
+        return ""
+    while k < len(args):
+        a = args[k]
+        val = args[k + 1] if a == "-v" and k + 1 < len(args) else None
+        r = rnd.random()
+        if a in LONG and r < 0.35:
+            cluster = flush()
+            name = LONG[a]
+            if rnd.random() < 0.5:
+                name = name[:rnd.randrange(4, len(name) + 1)]      # "--a" .. are unambiguous here from three characters on; keep four
+            if val is not None:
+                out += [name + "=" + val] if rnd.random() < 0.5 else [name, val]
+            else:
+                out.append(name)
+        elif a == "-v":
+            if val is None:
+                cluster = flush()
+                out.append(a)
+            elif r < 0.7 and val != "":
+                out.append("-" + cluster + "v" + val)             # value attached, possibly after a cluster
+                cluster = ""
+            else:
+                out += ["-" + cluster + "v", val]
+                cluster = ""
+        elif r < 0.8:
+            cluster += a[1:]
+        else:
+            cluster = flush()
+            out.append(a)
+        k += 2 if val is not None else 1
+    flush()
+    return out
+
+
 def concretise(rnd, cfg):
     flags = [f for f in cfg["flags"]]
     args = [FLAGARG[f] for f in flags]
-    if rnd.random() < 0.3:
-        args = [{"-a": "--all", "-n": "--no-colors", "-j": "--json"}.get(a, a) for a in args]
     rnd.shuffle(args)
     vflags = [f for f in flags if f in "234"]
     item = {"stdin": []}
@@ -38,13 +83,14 @@ def concretise(rnd, cfg):
             if s.startswith("-") or s == "":
                 s = "x" + s
         pos = rnd.randrange(len(args) + 1)
-        args = args[:pos] + [rnd.choice(["-v", "--vector"]), s] + args[pos:]
+        args = args[:pos] + ["-v", s] + args[pos:]
     else:
         if rnd.random() < 0.3:
             args += ["-v", ""]
         n = 400 if cfg["ikind"] == "complete" else rnd.randrange(0, 12)
         item["stdin"] = [rnd.choice([a, a.lower()]) for a in (UNIVERSAL * 40)[:n]]
     item["args"] = [esc(a) for a in args]
+    item["argv"] = [esc(a) for a in typed(rnd, args)]
     item["stdin"] = [esc(a) for a in item["stdin"]]
     return item
 
